@@ -21,6 +21,10 @@ Theorem C02_gj_sym_inverse_any_dimension (D : list (list R)) : square D -> pivot
   sym_inverse KR (length D) D (gj_inverse ROps D).
 Proof. exact (gj_sym_inverse D). Qed.
 
+(** the pivot hypothesis is a statement about the executable pivot list that the correspondence run evaluates *)
+Theorem C02_pivots_ok_iff_executable (D : list (list R)) : pivots_ok D <-> Forall (fun p => p <> 0) (gj_pivots ROps D).
+Proof. exact (pivots_ok_iff D). Qed.
+
 (** the D block of a body: square, symmetric, and D(x, y) = <P H y, H x> *)
 Theorem C02_D_block_symmetric (Pb : ArtInertia (T:=R)) (H : list (SpatialVec R)) :
   bsym (map (fun h => Htmul KR (map (papply AR Pb) H) h) H) /\ square (map (fun h => Htmul KR (map (papply AR Pb) H) h) H).
@@ -90,6 +94,7 @@ Proof. exact (conj pivots_ok_example gj_example_inverse). Qed.
 Print Assumptions C02_gj_solves.
 Print Assumptions C02_gj_left_inverse.
 Print Assumptions C02_gj_sym_inverse_any_dimension.
+Print Assumptions C02_pivots_ok_iff_executable.
 Print Assumptions C02_D_block_symmetric.
 Print Assumptions C02_body_ok_any_dof.
 Print Assumptions C02_fd_then_rnea_zero_any_dof.
